@@ -324,7 +324,19 @@ def node_lane(chk, rng, ntrees):
                         "c04-node-%d" % j, w)
 
 
+
+def _replay_route_story(spec):
+    from skv.props import c09
+    env.boot()
+    mon = c09.route_histories(random.Random(1), 8, 14, c09.all_classes(), "replay-route", story_share=0.8)
+    return {"evaluations": mon.c.get("deliveries", 0), "distinct": mon.c.get("download_route_stories", 0),
+            "violations": [{"key": "node-route:" + v["key"], "msg": v["msg"], "witness": v["witness"]} for v in mon.viol[:6]],
+            "counters": {"route_lane_stories": mon.c.get("download_route_stories", 0)}, "digests": []}
+
 def run_shard(spec):
+    if "replay" in spec and isinstance(spec["replay"], dict) and spec["replay"].get("kind") == "download-route-story":
+        # (the story is re-run with this check's classes on the current tree; the recorded chain is for the reader)
+        return _replay_route_story(spec)
     env.boot()
     from skepticoin.coinstate import CoinState
     import skepticoin.datatypes as dt
